@@ -26,6 +26,9 @@ def digest (c : Chan) : String :=
   s!"cc={c.cpCommit} cr={c.cpRevoke} cpt={optNat c.curPt} ppt={optNat c.prevPt} " ++
   s!"ci={optNat c.curInfo} pi={optNat c.prevInfo} st={store}"
 
+def sig? : String → Option SigFact
+  | "1" => some .valid | "0" => some .invalid | "2" => some .oob | _ => none
+
 def bool? : String → Option Bool
   | "1" => some true | "0" => some false | _ => none
 
@@ -42,7 +45,7 @@ def parse (toks : List String) : Option Op :=
   | ["revoke", n] => (nat? n).map .revoke
   | ["signholder", n] => (nat? n).map .signHolder
   | "validate" :: n :: c :: s :: p :: _ => do
-    let n ← nat? n; let c ← nat? c; let s ← bool? s; let p ← bool? p
+    let n ← nat? n; let c ← nat? c; let s ← sig? s; let p ← bool? p
     pure (.validate n c s p)
   | ["signredundant", n, c, p] => do
     let n ← nat? n; let c ← nat? c; let p ← bool? p
@@ -54,8 +57,8 @@ def parse (toks : List String) : Option Op :=
   | ["revokecp", n, sec, pt] => do
     let n ← nat? n; let sec ← hex? sec; let pt ← nat? pt
     pure (.revokeCp n sec pt)
-  | ["hvalidate", v, n, c, s, p] => do
-    let v ← nat? v; let n ← nat? n; let c ← nat? c; let s ← bool? s; let p ← bool? p
+  | "hvalidate" :: v :: n :: c :: s :: p :: _ => do
+    let v ← nat? v; let n ← nat? n; let c ← nat? c; let s ← sig? s; let p ← bool? p
     pure (.hValidate v n c s p)
   | ["hrevoke", v, n] => do let v ← nat? v; let n ← nat? n; pure (.hRevoke v n)
   | ["hgetpoint", v, n] => do let v ← nat? v; let n ← nat? n; pure (.hGetPoint v n)
